@@ -3,6 +3,7 @@ package rules
 import (
 	"fmt"
 	"go/types"
+	"os"
 	"strings"
 
 	"golang.org/x/tools/go/ssa"
@@ -38,6 +39,10 @@ func loadTable(c *core.Ctx, initFn *ssa.Function, field string, maxLen int) (rs 
 		n        int
 		twoPhase bool // Initialize with the first loader, add the rest, Initialize again: the second run is what counts
 		viaSet   bool // the loaders are given by SetLoaders (replace) instead of AddLoaders
+		// realSorter: the ordering helper itself is interpreted (on a priority-ordered loader followed by loaders outside
+		// the contract), and the configure is initialised twice with all loaders: what the helper and the start routine
+		// do to each other's slices shows in the second run
+		realSorter bool
 	}
 	var setL *ssa.Function
 	if recv := initFn.Signature.Recv(); recv != nil && add != nil {
@@ -49,20 +54,24 @@ func loadTable(c *core.Ctx, initFn *ssa.Function, field string, maxLen int) (rs 
 	}
 	var variants []variant
 	for n := 0; n <= maxLen; n++ {
-		variants = append(variants, variant{n, false, false})
+		variants = append(variants, variant{n, false, false, false})
 	}
 	if add != nil {
 		for n := 2; n <= maxLen; n++ {
-			variants = append(variants, variant{n, true, false})
+			variants = append(variants, variant{n, true, false, false})
 		}
 	}
 	if setL != nil {
 		for n := 2; n <= maxLen; n++ {
-			variants = append(variants, variant{n, false, true})
+			variants = append(variants, variant{n, false, true, false})
 		}
+	}
+	if add != nil {
+		variants = append(variants, variant{3, false, false, true})
 	}
 	for _, vr := range variants {
 		n, twoPhase, viaSet := vr.n, vr.twoPhase, vr.viaSet
+		realSorter := vr.realSorter
 		var trace []string
 		var want []string
 		var wantErr bool
@@ -92,9 +101,28 @@ func loadTable(c *core.Ctx, initFn *ssa.Function, field string, maxLen int) (rs 
 				if tok, ok := v.(*absint.Tok); ok && tok.Class == "loader" && !types.IsInterface(T) {
 					return false, true
 				}
+				if tok, ok := v.(*absint.Tok); ok && tok.Class == "loader" && realSorter {
+					if lt := c.Named("configure", "Loader"); lt != nil && types.Identical(T, lt) {
+						return true, true
+					}
+					ordN, priN := c.Named("definition", "Ordered"), c.Named("definition", "Priority")
+					if (ordN != nil && types.Identical(T, ordN)) || (priN != nil && types.Identical(T, priN)) {
+						return tok.Attr["order"] != nil, true
+					}
+					return false, true
+				}
 				return false, false
 			}
-			if ro.Sorter != nil {
+			if realSorter {
+				ls.Elems[0].(*absint.Tok).Attr["order"] = absint.Int(-3)
+				t.invokeN["Order"] = func(ip *absint.Interp, a []absint.Value) absint.Value {
+					if tok, ok := a[0].(*absint.Tok); ok && tok.Attr["order"] != nil {
+						return tok.Attr["order"]
+					}
+					panic(&absint.Undecided{Msg: "Order() of a loader outside the contract"})
+				}
+			}
+			if ro.Sorter != nil && !realSorter {
 				t.callee[ro.Sorter] = func(ip *absint.Interp, a []absint.Value) absint.Value {
 					in, ok := a[0].(*absint.List)
 					if !ok {
@@ -165,6 +193,17 @@ func loadTable(c *core.Ctx, initFn *ssa.Function, field string, maxLen int) (rs 
 						} else if out.Panic != nil {
 							panic(&absint.Undecided{Msg: "AddLoaders panics: " + out.Panic.Msg})
 						}
+						if k == 1 && realSorter {
+							// a first start with all loaders, everything succeeding
+							quiet = true
+							if out := ip0.Run(initFn, []absint.Value{cfg}, nil); out.Undecided != nil {
+								panic(&absint.Undecided{Msg: "first Initialize: " + out.Undecided.Msg})
+							} else if out.Panic != nil {
+								panic(&absint.Undecided{Msg: "first Initialize panics: " + out.Panic.Msg})
+							}
+							quiet = false
+							trace, want = nil, nil
+						}
 						if k == 0 && twoPhase {
 							// a first start with the first loader alone, everything succeeding
 							quiet = true
@@ -182,7 +221,7 @@ func loadTable(c *core.Ctx, initFn *ssa.Function, field string, maxLen int) (rs 
 			return t, []absint.Value{cfg}, nil
 		}
 		check := func(ip *absint.Interp, out absint.Outcome) {
-			w := fmt.Sprintf("%d loader(s) (re-initialised after adding all but the first: %v; given by SetLoaders: %v): trace=%v => %s", n, twoPhase, viaSet, trace, showOutcome(out))
+			w := fmt.Sprintf("%d loader(s) (re-initialised after adding all but the first: %v; given by SetLoaders: %v; second start with the ordering helper itself: %v): trace=%v => %s", n, twoPhase, viaSet, realSorter, trace, showOutcome(out))
 			if out.Panic != nil {
 				rs.fail("error", "PANIC "+w)
 				return
@@ -207,13 +246,16 @@ func loadTable(c *core.Ctx, initFn *ssa.Function, field string, maxLen int) (rs 
 			// order: the loads are exactly sorted:Ln .. sorted:L1 as far as the run got
 			rs.hit("order")
 			k := 0
-			okOrder := sorted != ""
+			okOrder := sorted != "" || realSorter
 			for _, e := range got {
 				if !strings.HasPrefix(e, "load(") {
 					continue
 				}
-				if e != fmt.Sprintf("load(sorted:L%d)", n-k) {
+				if !realSorter && e != fmt.Sprintf("load(sorted:L%d)", n-k) {
 					okOrder = false
+				}
+				if realSorter && e != fmt.Sprintf("load(L%d)", k+1) {
+					okOrder = false // (the priority-ordered loader first, the others in registration order)
 				}
 				k++
 			}
@@ -232,6 +274,12 @@ func loadTable(c *core.Ctx, initFn *ssa.Function, field string, maxLen int) (rs 
 		m, u := runTable(c, initFn, build, check)
 		runs += m
 		if u != "" {
+			if realSorter {
+				if os.Getenv("IOCVET_DEBUG") != "" {
+					fmt.Fprintln(os.Stderr, "REAL-SORTER variant undecided:", u)
+				}
+				continue // the helper itself is decided by the sorter table; only its interplay is lost here
+			}
 			return rs, runs, u
 		}
 	}
